@@ -5,7 +5,7 @@
    class without its own rule of that name sees the core rule object. *)
 From Coq Require Import String List NArith.
 Import ListNotations.
-From ABNF Require Import Base Engine Spec Wf Registry Loader Bundled RfcSpec Tables LangEq L_C05 L_C06.
+From ABNF Require Import Base Engine Spec Wf Registry Loader Bundled RfcSpec Tables TablesAll LangEq L_C05 L_C06.
 
 Theorem C06_single_character_rules : forall nm cls, In (nm, cls) b1_classes ->
   exists a, rid_of (r_boot tt) 0%N nm = Some a /\ defined G_meta a /\
@@ -39,3 +39,8 @@ Theorem C06_seen_from_any_class : forall R c name,
   find_obj c (fold_name name) (objs R) 0 = None -> rget R c name = find_obj 0%N (fold_name name) (objs R) 0.
 Proof. exact core_seen_from_any_class. Qed.
 Print Assumptions C06_seen_from_any_class.
+
+Theorem C06_no_bundled_module_changes_a_core_rule :
+  (same_class (r_boot tt) R_all 0%N && same_class (r_boot tt) R_all 1%N)%bool = true.
+Proof. exact core_unchanged_by_bundled_modules. Qed.
+Print Assumptions C06_no_bundled_module_changes_a_core_rule.
